@@ -1,5 +1,6 @@
 #!/bin/sh
 # patches/verify-btor2-series.sh [tier]
+# (historical: this series is applied in /repo since bbc1196..23e773b; for the patches prepared on top of it see verify-btor2-0008-0011.sh)
 # Verifies the btor2 patch series in isolation (never touches /repo):
 #   1. scratch worktree of /repo at HEAD with patches/000N-fix-btor2-*.diff applied, the repository's btor2 tests run there;
 #   2. scratch worktree of /verif at this branch with the harness pointed at the patched copy, code_variant = Fix and the
